@@ -112,3 +112,22 @@ def run(ctx):
         "the enumerating generator visits every outcome of each numpy call with numpy's probability",
         "float round-off of the exact matrices is below 1e-12 on the small-rational inputs used (observed 1e-16)",
     ]
+
+
+def replay(ctx, doc):
+    """./check C01 --replay file: recompute the exact transition matrix of the recorded configuration on the recorded data."""
+    from fractions import Fraction
+
+    rp = doc.get("replay", {})
+    if "config" not in rp or "values" not in rp:
+        ctx.log("nothing to replay in this file (a tie/proof replay names the obligation that broke)")
+        print(doc)
+        return
+    cfg = rp["config"]
+    vals = [[[Fraction(x) for x in row] for row in pt] for pt in rp["values"]]
+    res = transition_matrix(vals, cfg.get("data_op", 0.0), cfg, workers=8)
+    d, j, rs = invariance_defect(res)
+    ctx.case(key="replay", nontrivial=True, sample={"config": cfg, "max_abs_piP_minus_pi": d, "rowsum_err": rs, "errors": res["errors"][:2]})
+    ctx.log("replayed %r: max|pi P - pi| = %.3g at state %s, row-sum error %.3g, exceptions %d" % (cfg, d, res["specs"][j], rs, len(res["errors"])))
+    if res["errors"] or d > TOL or rs > TOL:
+        ctx.fail(doc.get("key", "C01:replay"), "replayed configuration still fails: max|pi P - pi| = %.3g, exceptions %d" % (d, len(res["errors"])), rp)
